@@ -26,6 +26,43 @@ pub struct Ctx {
     rng: u64,
 }
 
+/// what the current case is doing: (prop, seed, case number, label, start); read by the watchdog
+pub static WATCH: std::sync::Mutex<Option<(String, u64, u64, String, Instant)>> = std::sync::Mutex::new(None);
+
+/// label the call that is about to be made (shown if it never returns)
+pub fn watch(label: String) {
+    if let Ok(mut g) = WATCH.lock() {
+        if let Some(w) = g.as_mut() {
+            w.3 = label;
+            w.4 = Instant::now();
+        }
+    }
+}
+
+fn rss_mb() -> u64 {
+    std::fs::read_to_string("/proc/self/statm").ok().and_then(|s| s.split_whitespace().nth(1).and_then(|x| x.parse::<u64>().ok())).map(|pages| pages * 4096 / (1 << 20)).unwrap_or(0)
+}
+
+/// a call that does not return within 20 s, or that allocates more than 6 GB, is reported as a failing input
+fn start_watchdog() {
+    std::thread::spawn(|| loop {
+        std::thread::sleep(Duration::from_millis(50));
+        let snap = WATCH.lock().ok().and_then(|g| g.clone());
+        if let Some((prop, seed, case_no, label, start)) = snap {
+            let mb = rss_mb();
+            let late = start.elapsed() > Duration::from_secs(20);
+            if late || mb > 6144 {
+                let got = if late { "no result after 20 s".to_string() } else { format!("still running with {} MB allocated", mb) };
+                println!(
+                    "{{\"prop\":\"{}\",\"found\":true,\"supported\":true,\"oracle\":\"termination\",\"case_no\":{},\"seed\":{},\"input\":\"{}\",\"expected\":\"the call returns\",\"got\":\"{}\",\"cases\":{}}}",
+                    esc(&prop), case_no, seed, esc(&label), esc(&got), case_no
+                );
+                std::process::exit(0);
+            }
+        }
+    });
+}
+
 pub struct Failure {
     oracle: String,
     input: String,
@@ -57,7 +94,14 @@ impl Ctx {
                 return None;
             }
         }
-        f()
+        if let Ok(mut g) = WATCH.lock() {
+            *g = Some((self.prop.clone(), self.seed, self.case_no, format!("case {}", self.case_no), Instant::now()));
+        }
+        let r = f();
+        if let Ok(mut g) = WATCH.lock() {
+            *g = None;
+        }
+        r
     }
 }
 
@@ -1435,6 +1479,7 @@ fn main() {
     let budget: u64 = args[3].parse().unwrap_or(10000);
     let only_case = args.get(4).and_then(|s| s.parse::<u64>().ok());
     std::panic::set_hook(Box::new(|_| {}));
+    start_watchdog();
     let mut ctx = Ctx {
         prop: prop.clone(),
         seed,
